@@ -878,10 +878,10 @@ def bin2sna_tool(seed, n):
                     banks[b] = bdata + [0] * (0x4000 - blen)
             start, stack, border = org, org, 7
             if rnd.random() < 0.4:
-                start = rnd.randrange(16384, 65536)
+                start = rnd.choice((0, 0, 65535, rnd.randrange(16384, 65536)))        # (0 is a value, not "absent")
                 args += ['-s', str(start)]
             if rnd.random() < 0.4:
-                stack = rnd.randrange(16384, 65536)
+                stack = rnd.choice((0, 0, 65535, rnd.randrange(16384, 65536)))
                 args += ['-p', str(stack)]
             if rnd.random() < 0.3:
                 border = rnd.randrange(8)
